@@ -35,7 +35,7 @@ typedef double scalar;
 struct F { bool v; };
 #endif
 
-struct Args { std::string tier="quick", mode="explore", out, replay, only_case, dump_dir; long seed=1; int shard_i=0, shard_n=1; bool list=false; int solver_timeout_ms=20000; size_t dump_max=0; };
+struct Args { std::string tier="quick", mode="explore", out, replay, only_case, case_prefix, dump_dir; long seed=1; int shard_i=0, shard_n=1; bool list=false; int solver_timeout_ms=20000; size_t dump_max=0; };
 inline Args &args() { static Args a; return a; }
 inline bool thorough() { return args().tier=="thorough"; }
 
@@ -148,6 +148,14 @@ template<class VA, class VB> inline void prove_eq_vec(const std::string &name, c
     if (a.size()!=b.size()) { require(name+" sizes", false, "size mismatch"); return; }
     std::vector<F> fs; for (size_t i=0;i<a.size();++i) { validate(a[i]); validate(b[i]); observe(name+"["+std::to_string(i)+"].lhs",a[i]); observe(name+"["+std::to_string(i)+"].rhs",b[i]); fs.push_back(eq(a[i],b[i])); } prove_all(name,fs); }
 
+// the value is the constant zero (normal form; in the double build: compares equal to 0)
+inline bool is_zero_value(scalar a) {
+#ifdef HX_SYM
+    return a.nf==scalar(0).nf;
+#else
+    return a==0;
+#endif
+}
 // raw-handle identity: the two values were produced by the same operations on the same operands in the same order
 // (implies bitwise equality at any IEEE type).  In the double build: bitwise equality.
 inline bool same_handle(scalar a, scalar b) {
@@ -163,6 +171,7 @@ struct CaseOptions { size_t max_paths=64, max_depth=60; bool check_reach=true; s
 template<class Body> inline void run_case(const std::string &name, Body body, const CaseOptions &co=CaseOptions()) {
     State &s=st(); size_t idx=s.case_idx++;
     if (args().list) { std::cout<<name<<"\n"; return; }
+    if (!args().case_prefix.empty() && name.compare(0,args().case_prefix.size(),args().case_prefix)!=0) return;   // development filter
     if (!args().only_case.empty()) { if (args().only_case!=name) return; }
     else if ((int)(idx % args().shard_n) != args().shard_i) return;
     s.current_case=name; s.cases_run++; if (s.case_names.size()<4) s.case_names.push_back(name);
@@ -198,7 +207,7 @@ inline void parse_args(int argc, char **argv) { Args &a=args();
 #endif
     for (int i=1;i<argc;++i) { std::string k=argv[i]; auto nxt=[&]() { if (i+1>=argc) { std::cerr<<"missing value for "<<k<<"\n"; exit(2); } return std::string(argv[++i]); };
         if (k=="--tier") a.tier=nxt(); else if (k=="--seed") a.seed=atol(nxt().c_str()); else if (k=="--shard") { std::string s=nxt(); a.shard_i=atoi(s.c_str()); a.shard_n=atoi(s.substr(s.find('/')+1).c_str()); }
-        else if (k=="--mode") a.mode=nxt(); else if (k=="--out") a.out=nxt(); else if (k=="--case") a.only_case=nxt(); else if (k=="--list") a.list=true;
+        else if (k=="--mode") a.mode=nxt(); else if (k=="--out") a.out=nxt(); else if (k=="--case") a.only_case=nxt(); else if (k=="--case-prefix") a.case_prefix=nxt(); else if (k=="--list") a.list=true;
         else if (k=="--timeout-ms") a.solver_timeout_ms=atoi(nxt().c_str()); else if (k=="--dump") { a.dump_dir=nxt(); a.dump_max=40; }
         else if (k=="--replay") { a.replay=nxt(); a.mode="concrete"; std::ifstream f(a.replay); std::string w; while (f>>w) { if (w=="case") { f>>std::ws; std::getline(f,a.only_case); } else if (w=="var") { std::string n,v; f>>n>>v; st().replay_vals[n]=v; } } }
         else { std::cerr<<"unknown argument "<<k<<"\n"; exit(2); } }
@@ -232,8 +241,8 @@ inline int finish() { State &s=st(); if (args().list) return 0; std::ostringstre
     { symx::Report &r=symx::report(); symx::Ctx &c=symx::ctx();
       o<<",\"obligations\":"<<r.obligations<<",\"discharged\":"<<r.discharged<<",\"trivial\":"<<r.trivial<<",\"queries\":"<<r.queries<<",\"q_unsat\":"<<r.q_unsat<<",\"q_sat\":"<<r.q_sat<<",\"q_unknown\":"<<r.q_unknown
        <<",\"solver_errors\":"<<r.solver_errors<<",\"last_error\":\""<<jesc(r.last_error)<<"\",\"solver_s\":"<<symx::solver().total_s<<",\"paths\":"<<r.paths<<",\"paths_pruned\":"<<r.paths_pruned<<",\"paths_unexplored\":"<<r.paths_unexplored<<",\"paths_undecided_skipped\":"<<r.paths_undecided_skipped<<",\"paths_stopped\":"<<r.paths_stopped
-       <<",\"reach_sat\":"<<r.reach_sat<<",\"reach_unsat\":"<<r.reach_unsat<<",\"reach_unknown\":"<<r.reach_unknown<<",\"witness_unknown\":"<<r.witness_unknown<<",\"forks\":"<<c.nforks_total<<",\"max_query_bytes\":"<<r.max_query_bytes
-       <<",\"nf_checks\":"<<c.nf_checks<<",\"nf_mismatch\":"<<c.nf_mismatch<<",\"nf_skipped\":"<<c.nf_skipped<<",\"terms\":{\"raw\":"<<c.rn.size()<<",\"vals\":"<<c.vals.size()<<",\"polys\":"<<c.polys.size()<<",\"atoms\":"<<c.atoms.size()<<"}";
+       <<",\"reach_sat\":"<<r.reach_sat<<",\"reach_unsat\":"<<r.reach_unsat<<",\"reach_unknown\":"<<r.reach_unknown<<",\"witness_unknown\":"<<r.witness_unknown<<",\"witness_refuted\":"<<r.witness_refuted<<",\"forks\":"<<c.nforks_total<<",\"max_query_bytes\":"<<r.max_query_bytes
+       <<",\"nf_checks\":"<<c.nf_checks<<",\"nf_mismatch\":"<<c.nf_mismatch<<",\"nf_skipped\":"<<c.nf_skipped<<",\"terms\":{\"raw\":"<<(c.terms_total_raw+c.rn.size())<<",\"vals\":"<<(c.terms_total_vals+c.vals.size())<<",\"polys\":"<<c.polys.size()<<",\"atoms\":"<<c.atoms.size()<<"}";
       o<<",\"stops\":{"; { bool f=true; for (auto &kv : r.stops) { o<<(f?"":",")<<"\""<<jesc(kv.first)<<"\":"<<kv.second; f=false; } } o<<"}";
       o<<",\"unexplored_cases\":["; { bool f=true; for (auto &a : r.unexplored_cases) { o<<(f?"":",")<<"\""<<jesc(a)<<"\""; f=false; } } o<<"]";
       o<<",\"samples\":["; for (size_t i=0;i<r.samples.size();++i) o<<(i?",":"")<<"\""<<jesc(r.samples[i])<<"\""; o<<"]";
